@@ -133,7 +133,10 @@ func HarnessShapes(kind int) {
 // call must succeed, whatever the iteration orders, and deliver f_n(x_n).
 //
 //	nVals 2 or 3 named P0 values; sv: order policy (see hOrderSites)
-func HarnessC05Gen(nVals, sv int) {
+//	chain 1: explicit converters n:P0 -> n:P1 are supplied and the generator reacts to the
+//	      named P1 values, which exist only as outputs of those converters (n:P1 -> n:P2;
+//	      the target needs n:P2): generators are offered what supplied converters can produce
+func HarnessC05Gen(nVals, sv, chain int) {
 	hOrderSites(sv)
 	names := []string{"a", "b", "c"}[:nVals]
 	xs := make([]int, nVals)
@@ -145,19 +148,35 @@ func HarnessC05Gen(nVals, sv int) {
 	// a distractor of another type, and a type-only P0 value the generator ignores
 	args = append(args, Typed(hP2{vnPayload("d")}))
 	genCalls := 0
+	srcT, dstT := hTP0, hTP1
+	if chain == 1 {
+		srcT, dstT = hTP1, hTP2
+		for _, n := range names {
+			name := n
+			in := hStructType([]hLabel{{Name: name, T: hTP0}})
+			out := hStructType([]hLabel{{Name: name, T: hTP1}})
+			fn := reflect.MakeFunc(reflect.FuncOf([]reflect.Type{in}, []reflect.Type{out}, false), func(a []reflect.Value) []reflect.Value {
+				_, id := hUnpack(a[0].Field(1).Interface())
+				o := reflect.New(out).Elem()
+				o.Field(1).Set(reflect.ValueOf(hP1{vnUF("exp_"+name, id)}))
+				return []reflect.Value{o}
+			})
+			args = append(args, Converter(fn.Interface()))
+		}
+	}
 	gen := func(v Value) (*Func, error) {
 		genCalls++
-		if v.Name == "" || v.Type != hType(hTP0) {
+		if v.Name == "" || v.Type != hType(srcT) {
 			return nil, nil
 		}
 		name := v.Name
-		in := hStructType([]hLabel{{Name: name, T: hTP0}})
-		out := hStructType([]hLabel{{Name: name, T: hTP1}})
+		in := hStructType([]hLabel{{Name: name, T: srcT}})
+		out := hStructType([]hLabel{{Name: name, T: dstT}})
 		ft := reflect.FuncOf([]reflect.Type{in}, []reflect.Type{out}, false)
 		fn := reflect.MakeFunc(ft, func(a []reflect.Value) []reflect.Value {
 			_, id := hUnpack(a[0].Field(1).Interface())
 			o := reflect.New(out).Elem()
-			o.Field(1).Set(reflect.ValueOf(hP1{vnUF("gen_"+name, id)}))
+			o.Field(1).Set(reflect.ValueOf(hMk(dstT, vnUF("gen_"+name, id))))
 			return []reflect.Value{o}
 		})
 		return NewFunc(fn.Interface())
@@ -176,8 +195,8 @@ func HarnessC05Gen(nVals, sv int) {
 	var ls []hLabel
 	desc := ""
 	for _, i := range need {
-		ls = append(ls, hLabel{Name: names[i], T: hTP1})
-		desc += names[i] + ":P1 "
+		ls = append(ls, hLabel{Name: names[i], T: dstT})
+		desc += names[i] + fmt.Sprintf(":P%d ", dstT)
 	}
 	tin := hStructType(ls)
 	got := make([]int, len(need))
@@ -190,7 +209,7 @@ func HarnessC05Gen(nVals, sv int) {
 		return nil
 	})
 	target, err := NewFunc(tfn.Interface())
-	vnNote(fmt.Sprintf("%d named P0 values, name-sensitive generator n:P0 -> n:P1, target needs %s; order policy %d", nVals, desc, sv))
+	vnNote(fmt.Sprintf("%d named P0 values, name-sensitive generator n:P0 -> n:P1, target needs %s; order policy %d; chain %d", nVals, desc, sv, chain))
 	if err != nil {
 		vnAssume(false)
 	}
@@ -211,7 +230,11 @@ func HarnessC05Gen(nVals, sv int) {
 		}
 		vnAssert(ran == 1, "C05.gen.target-executed")
 		for j, i := range need {
-			vnAssert(got[j] == vnUF("gen_"+names[i], xs[i]), "C05.gen.parameter-receives-its-own-name's-conversion")
+			want := vnUF("gen_"+names[i], xs[i])
+			if chain == 1 {
+				want = vnUF("gen_"+names[i], vnUF("exp_"+names[i], xs[i]))
+			}
+			vnAssert(got[j] == want, "C05.gen.parameter-receives-its-own-name's-conversion")
 		}
 	}
 	vnCover("C05.gen-checked")
